@@ -799,6 +799,8 @@ def basic_line_checks(case, out, Failure):
     for op, l in zip(case["ops"], out):
         if " wf=0" in l:
             return Failure("monitor", "ill-formed ESL_SQ returned by %r: %s" % (op[:60], l[l.index(" wf=0") + 1:][:80]))
+        if op.startswith("echo") and l == "einval exc":           # documented misuse: Echo() of an ESL_SQ without disk offsets (eslEINVAL)
+            continue
         if l.endswith(" exc") and not l.startswith("esyntax"):   # ESYNTAX = documented misuse (reverse window before forward strand)
             return Failure("monitor", "internal exception raised by %r: %s" % (op[:60], l[:80]))
         if l.startswith("estatus?"):
@@ -987,18 +989,20 @@ def _monitor_c04(case, out):
 
 C04_THEOREMS = ["fwd_first_window", "fwd_windows_tile", "rev_first_window", "rev_windows_tile", "rev_offset_brute_force",
                 "addbuf_moves_only_bpos", "loadbuf_ignores_bpos", "nextchar_block_size_independent",
-                "writeFasta_keeps_residues_partial", "open_block_size_independent", "header_fasta_block_size_independent",
+                "writeFasta_keeps_residues", "open_block_size_independent", "header_fasta_block_size_independent",
                 "seebuf_is_byte_fold", "buffer_cut_invisible", "readinfo_loop_is_file_fold", "readInfo_block_size_independent",
                 "readInfo_after_open_block_size_independent",
                 "residue_loop_closed_form", "header_fasta_closed_form", "read_one_record_closed_form", "open_is_openFasta",
                 "read_all_eq_parseFasta", "read_all_eq_specFasta", "read_all_block_size_independent",
                 "readInfo_closed_form", "readSequence_closed_form", "read_readInfo_readSequence_agree",
-                "windows_eq_read", "windows_concat_eq_read", "windows_coords", "read_nres_closed_form"]
+                "windows_eq_read", "windows_concat_eq_read", "windows_coords", "read_nres_closed_form", "readBlock_short_eq_read", "write_read_roundtrip", "writeFasta_is_fastaText",
+                "loadbuf_line_closed_form", "loadbuf_line_block_size_independent", "open_line_based"]
 C02_THEOREMS = ["loadbuf_total", "nextchar_total", "nextchar_no_fault", "seebuf_total", "inmaps_agree",
-                "read_total", "read_no_fault", "readInfo_total", "readSequence_total", "read_all_total"]
+                "read_total", "read_no_fault", "readInfo_total", "readSequence_total", "read_all_total", "readBlock_total", "read_nres_total"]
 C07_THEOREMS = ["findSubseq_absent", "findSubseq_out_of_range", "fetchSubseq_absent", "fetchSubseq_start_out_of_range", "findSubseq_cases",
                 "lands_on_start_line", "lands_on_start_residue", "lands_on_start_none", "bplrpl_sound_partial", "bplrpl_unsound_single_line", "bplrpl_unsound_at_init",
-                "echo_eq_scan_bytes", "echo_unset_offsets", "echo_of_scanned_record", "echo_of_read_record"]
+                "echo_eq_scan_bytes", "echo_unset_offsets", "echo_of_scanned_record", "echo_of_read_record",
+                "fetchSubseq_eq_scan_slice_brute", "fetchSubseq_eq_scan_slice_line", "fetchSubseq_eq_scan_slice_residue", "fetchSubseq_end_out_of_range", "scanned_record_shape"]
 
 
 def _monitor_c07(case, out):
